@@ -141,7 +141,9 @@ class Interp:
     def call_qual(self, module, qualname, args, kwargs, bound_self=None):
         key = f'{module}.{qualname}'
         contract = self.unit.contracts.get(key)
-        if contract is not None and self.depth > 0:
+        top = getattr(self, 'top_call_pending', False)
+        self.top_call_pending = False
+        if contract is not None and not top:
             if bound_self is not None:
                 args = [bound_self] + list(args)
             return contract(self, *args, **kwargs)
@@ -611,6 +613,8 @@ class Interp:
     def eval_BinOp(self, node, env):
         a = self.eval(node.left, env)
         b = self.eval(node.right, env)
+        if isinstance(node.op, ast.BitOr) and _is_typeref(a) and _is_typeref(b):
+            return (a if isinstance(a, tuple) else (a,)) + (b if isinstance(b, tuple) else (b,))  # X | Y in isinstance()
         if isinstance(node.op, (ast.BitAnd, ast.BitOr)):
             f = z_and if isinstance(node.op, ast.BitAnd) else z_or
             if isinstance(a, STensor) or isinstance(b, STensor):
@@ -838,7 +842,7 @@ class Interp:
             if const is not NotImplemented:
                 return const
             raise Unsupported(f'class attribute {base.name}.{attr}')
-        if isinstance(base, (list, dict, tuple, str, set)):
+        if isinstance(base, (list, dict, tuple, str, set, slice)):
             return BoundPy(base, attr)
         if isinstance(base, np.ndarray):
             v = getattr(base, attr)
@@ -1143,6 +1147,13 @@ class Interp:
             if attr == 'add':
                 base.add(args[0])
                 return None
+        if isinstance(base, slice) and attr == 'indices':
+            from .npmodel import _clamp_slice
+            n = args[0]
+            if base.step not in (None, 1):
+                raise Unsupported('slice.indices with a step')
+            start, length = _clamp_slice(base, n)
+            return (start, binop('+', start, length), 1)
         if isinstance(base, str) and is_concrete(args):
             return getattr(base, attr)(*args, **kwargs)
         if is_concrete(base) and is_concrete(args) and is_concrete(kwargs):
@@ -1169,6 +1180,8 @@ class Interp:
         if name == 'range':
             if is_concrete(args):
                 return range(*args)
+            if len(args) == 3 and not is_sym(args[2]) and args[2] == 1:
+                args = args[:2]
             if len(args) == 1:
                 return SymIter(args[0], lambda k: k)
             if len(args) == 2:
@@ -1196,8 +1209,10 @@ class Interp:
         if name in ('list', 'tuple'):
             if not args:
                 return [] if name == 'list' else ()
-            if isinstance(a0, (SSeq, SymIter)):
+            if isinstance(a0, SSeq):
                 return a0
+            if isinstance(a0, SymIter):
+                return SSeq(a0.length, a0.item)
             it = self.iterate(a0, line)
             if isinstance(it, SymIter):
                 return SSeq(it.length, it.item)
@@ -1294,6 +1309,12 @@ class Interp:
                     return ClassRef(home, a0._cls)
             return SObj('type', of=a0)
         raise Unsupported(f'builtin {name}')
+
+
+def _is_typeref(x):
+    if isinstance(x, tuple):
+        return all(_is_typeref(e) for e in x)
+    return isinstance(x, (BuiltinRef, LibRef, ClassRef))
 
 
 def _has_bound_var(e):
